@@ -7,7 +7,8 @@ TRUSTED = [
     "harness/translate.py: COMPOSE_TYPES, COMPOSE_TYPE_SUFFIXES, Compose.type_suffix (tabulated over its finite domain), "
     "the compose-id and decoder patterns regenerated from /repo",
     "extraction (ExtrOcamlBasic only) + runner/driver.ml + wire format",
-    "hand model of the decoder (last 8-digit window) tied to the code by differential runs",
+    "hand model of the decoder (last 8-digit window) tied to the code by differential runs, and to the regenerated pattern by a "
+    "second model entry that runs the verified matcher on that pattern (three-way comparison)",
     "create_compose_id is modelled as a function of the object's current fields: each description is evaluated on a fresh object "
     "and on one long-lived object whose fields are re-assigned from case to case, and the two must agree",
 ]
@@ -70,6 +71,9 @@ def run(chk):
     ids = [c for c, _ in fixed] + ids
     core.differential(chk, "str_composeid:decode", ids, "get_date_type_respin", model_cases=[c["s"] for c in ids],
                       impl_fn="impl_decode", nontrivial=lambda c, r: r[0] == "ok" and r[1] is not None, oracle=oracle_dec)
+    # second opinion for the hand model: the same decoder computed by the generic matcher on the REGENERATED pattern
+    core.differential(chk, "str_composeid:decode_rx", ids, "get_date_type_respin_rx", model_cases=[c["s"] for c in ids],
+                      impl_fn="impl_decode", nontrivial=lambda c, r: r[0] == "ok" and r[1] is not None)
     core.differential(chk, "str_composeid:valid", ids, "compose_id_valid", model_cases=[c["s"] for c in ids],
                       impl_fn="impl_valid", nontrivial=lambda c, r: r is True)
     return chk.finish(
